@@ -646,8 +646,7 @@ MODEL_SWITCHES = {"link-to-hidden-object": "link-to-hidden-object", "dead-link-t
                   "hidden-root-listed": "hidden-root-listed", "dead-link-hidden-root": "hidden-root-listed",
                   "inherited-docstring-samepage-link": "inherited-docstring-samepage-link",
                   "superseded-duplicate-listed": "superseded-duplicate-listed",
-                  "percent-encoded-page-filename": "percent-encoded-page-filename",
-                  "sidebar-names-hidden-origin-module": "sidebar-names-hidden-origin-module"}
+                  "percent-encoded-page-filename": "percent-encoded-page-filename"}
 
 
 def fixed_set() -> str:
@@ -764,7 +763,6 @@ def run_property(ctx: Ctx, prop: str) -> int:
         ctx.register_matcher("hidden-root-listed", kf_hidden_root_listed)
         ctx.register_matcher("overrides-note-names-hidden-member", kf_overrides_note_hidden)
         ctx.register_matcher("main-module-ignores-rules", kf_main_module_ignores_rules)
-        ctx.register_matcher("sidebar-names-hidden-origin-module", kf_sidebar_names_hidden_origin_module)
 
     # ---- design level: TLC judges the predicted site of every model of the family
     k = 2 if ctx.quick else 3
